@@ -437,6 +437,8 @@ BEHAVIOURS = {
     "CNP": [op("cleanup", body=[op("ctx")]), op("cleanupnil"), draw(g("Bool"), "p")],
     "CSE": [op("cleanup", body=[op("errorf", text="first registered")]), op("cleanup", body=[op("skip")])],   # the skipping cleanup runs first; the other one must still run now
     "AL": [draw(g("Int8"), ""), draw(g("Bool"), "")],                           # unlabelled draws (draw bookkeeping)
+    # several goroutines of the test case obtain its context for the first time together (held at rapid's gate between fast and slow path)
+    "GX": [op("go", n=3, val="ctx.miss", body=[op("ctx", text="goroutine")]), draw(g("Bool"), "p")],
 }
 
 
@@ -452,13 +454,14 @@ def c11(tier, seed):
         seqs = short + rng.sample(longer, 260)
     extra = [("XC", "P"), ("XC", "XC", "P"), ("S", "XC", "P"), ("AL", "AL", "P"), ("AL", "S", "AL"), ("ES", "AL", "AL"), ("XC", "AL", "XC"),
              ("CS", "XC", "P"), ("CS", "CS", "XC"), ("XC", "CS", "XC", "P"), ("CN", "P"), ("CNP", "P", "P"), ("CNP", "CN", "P"), ("P", "CN", "P", "P"),
-             ("CS", "P", "XC"), ("CNP", "XC", "P"), ("CSE", "P"), ("CSE", "P", "P"), ("P", "CSE", "XC"), ("CSE", "CSE", "P")]
+             ("CS", "P", "XC"), ("CNP", "XC", "P"), ("CSE", "P"), ("CSE", "P", "P"), ("P", "CSE", "XC"), ("CSE", "CSE", "P"),
+             ("GX", "P"), ("GX", "GX", "XC"), ("XC", "GX", "P"), ("GX", "S", "GX", "P"), ("GX", "XC", "AL")]
     out = []
     for i, sq in enumerate(list(seqs) + extra):
         cases = {str(j + 1): BEHAVIOURS[b] for j, b in enumerate(sq)}
         fl = {"checks": len(sq) + 2, "seed": rng.randrange(1, 1 << 64), "nofailfile": "true", "shrinktime": "0s",
               "v": "true" if ("AL" in sq or i % 5 == 0) else "false"}
-        default = BEHAVIOURS["XC"] + BEHAVIOURS["AL"] if ("XC" in sq or "AL" in sq or "CS" in sq) else [draw(g("Bool"), "d")]
+        default = BEHAVIOURS["XC"] + BEHAVIOURS["AL"] if ("XC" in sq or "AL" in sq or "CS" in sq or "GX" in sq) else [draw(g("Bool"), "d")]
         out.append(scenario("c11-%s-%d" % ("_".join(sq), i), {"keyed": True, "cases": cases, "default": default}, fl,
                             tag={"seq": list(sq)}))
     return out + random_scripts("c11", tier, seed, 50, 1500, flags={"shrinktime": "0s"})
